@@ -153,6 +153,9 @@ fn run_long_haul(c: &LongHaul) -> CaseResult {
 }
 
 pub fn wrap_classes(sc: &PairScenario, trace: &Trace, classes: &mut Vec<&'static str>) {
+    if sc.ticks.first().map_or(false, |t| t.dt_us >= 60_000_000) {
+        classes.push(if trace.end_us >= (1u64 << 32) * 1000 { "old_connection_clock_crossed_2_pow_32_ms" } else { "old_connection_clock_near_a_power_of_two" });
+    }
     for d in 0..2 {
         let n_pkts = trace.subs[d].len() as u32;
         let n_frames = trace.wire[d].len() as u32;
